@@ -10,51 +10,122 @@ import MindsVerif.Gen.ErrLex
 /-!
 # C19 — syntax errors point at the offending token and suggestions really help (mindsdb)
 
-Property theorems only.  Models: `MindsVerif.Err` (`ErrorHandling.error_location`,
-`make_suggestion`, `process`, `MindsDBLexer.error`) and `MindsVerif.LR.parse` (which token is the
-bad token, what is expected).  Strings are `List Char`.
+Property theorems only.  Models: `MindsVerif.Err` (`ErrorHandling.error_location` in its live,
+part-by-part variant `errorLocationV true`, `make_suggestion`, `process`, `MindsDBLexer.error`),
+`MindsVerif.LR.parse` (which token is the bad token, what is expected) and `LR.canTake` /
+`LR.keptExpected` (`MindsDBParser._can_take`).  Strings are `List Char`.  The lexer is not modelled:
+its semantics is the hypothesis `SrcChain src 0 toks` (value = source slice, `lineno` = 1 + newlines
+before `index`, tokens in text order), checked on every token list of the streams and pinned by the
+extractor flags `ErrLex.splitValues`, `ErrLex.uniformLineno`.
 
-The full statement over arbitrary token records is false (see the witnesses; the rewritten-value class was
-repaired in the code by repo 5f4cdd1, the newline-in-token class is still real); what is proved:
-* `C19_caret_partial` / `C19_caret_source` / `C19_eof_caret` — caret arithmetic for ALL token layouts
-  that satisfy the lexer position invariants `layoutOK` (line numbers never decrease; a token
-  starts at or after the end of the *value* of its predecessor), incl. multi-line shifting;
-* `C19_bad_token_prefix`, `C19_bad_token_deterministic`, `C19_no_accepted_continuation` — the reported bad
-  token is the first one the *parser* cannot take: the stack is a valid automaton path whose frontier is
-  exactly the tokens before it, and every list with the same first k+1 tokens is rejected at the same token;
-* `C19_suggestion_is_row_key`, `C19_key_classification`, `C19_shift_key_extends`, `C19_key_totals_mindsdb` (Φ19) —
-  suggestions are action-row keys; shift keys extend the parser's path; the kernel recounts the
-  shift / reduce-look-ahead keys of the generated tables;
-* `C19_suggestions_checked` / `C19_suggestions_sentence_mindsdb` — in the `1 < n < 20` branch every
-  suggestion passed a full re-parse of one of the two synthesised lists (which is then a
-  sentence of the grammar); NOTE the second list replaces the token BEFORE the bad one;
+**Full statement** `C19_full T nT` = `C19_full_caret ∧ C19_full_bad_token T ∧ C19_full_suggestion T nT`
+(caret span = source span of the offending token and line display; the offending token is the first one
+the GRAMMAR cannot continue; every suggestion can be continued to a sentence after insertion).
+
+**Proved** `C19_partial`:
+* clause 1 in full — `C19_full_caret_holds` (from `C19_caret_uniform`, `C19_review_caret_uniform_line`,
+  `C19_eof_caret_uniform`): for every source text and every token list the lexer semantics allows, the
+  carets cover exactly the source characters of (the first line of) the bad token, every token of that
+  line is shown at its offset with its source text, at end of input the caret stands one past the last
+  token.  Not stated: the content of the ≤ 2 context lines, and that comments / gaps appear as blanks.
+* clause 2 at PARSER level — `C19_parser_bad_token_holds` (`C19_bad_token_prefix`,
+  `C19_bad_token_deterministic`, `C19_no_accepted_continuation`): the stack at the error is a valid
+  automaton path whose frontier is exactly the tokens before the bad one, and every token list with the
+  same first k+1 tokens is rejected at the same token.  The GRAMMAR-level clause is NOT proved and is false
+  on the pinned tree for inputs that hit an LALR conflict resolved as shift (open finding KF-C19-3,
+  established by the Earley search oracle, not in Lean).
+* clause 3 at PARSER level — `C19_review_suggestion_extends` (with `C19_kept_token_extends`,
+  `C19_review_kept_expected_extends`): every suggestion of every branch is the display value of a token
+  type the automaton can shift right after the tokens before the bad one.  `C19_suggestions_checked` /
+  `C19_suggestions_sentence_mindsdb`: in the checked branch the synthesised list that passed is a sentence.
+  Not proved: completability of `toks[:k] ++ [ty]` to a sentence, that the display value lexes to `ty`,
+  and the "substitute" half (the code replaces the token BEFORE the bad one: `C19_witness_replace_previous`).
 * `C19_lexer_caret` — `MindsDBLexer.error` line / column arithmetic.
-Missing (search only): that the parser's first bad token is the grammar's (completability), that a
-suggestion of the unchecked branches is a shift, the lexer invariants themselves.
-
-[review] this header is partly stale: (1) the live code is the part-by-part variant
-(`ErrLex.splitValues = true`), for which the newline-in-token class is closed by `C19_caret_split` /
-`C19_caret_uniform`; the theorems about the one-piece `errorLocation` matter only through
-`errorLocationV_true_eq`; (2) "a suggestion of the unchecked branches is a shift" is no longer missing:
-`C19_kept_token_extends`, composed for all inputs in `C19_review_suggestion_extends`; (3) `C19_full` is not
-the property (see the note under it), `C19_review_full_caret` is.
+* Φ19 data: `C19_key_classification`, `C19_shift_key_extends`, `C19_key_totals_mindsdb` (translation
+  cross-check of the generated tables).
+* History / necessity of hypotheses (about the OLD one-piece variant `errorLocation`, reachable only through
+  `errorLocationV_true_eq`): `C19_caret_partial`, `C19_caret_source`, `C19_eof_caret`, `C19_variant_agrees`,
+  `C19_caret_partial_v`, `C19_eof_caret_v`, and the regression theorems `C19_regress_*`.
 -/
 namespace MindsVerif.Props.C19
 open MindsVerif MindsVerif.Err MindsVerif.LR MindsVerif.Gen
 
-/-- Full statement (caret clause), FALSE as it stands: for every token list and every bad token in it
-the carets cover exactly `srcLen` characters (the length of the token's SOURCE text) of the shown
-line, whatever the lexer did to `value`. -/
-def C19_full : Prop :=
-  ∀ (toks : List Tok) (b : Tok) (srcLen : Nat), b ∈ toks →
-    ∃ pre c, errorLocation toks (some b) = pre ++ [List.replicate (c + 1) '-' ++ List.replicate srcLen '^']
--- [review] CAUTION about `C19_full` / `C19_full_false`: `srcLen` is universally quantified and tied to
--- NOTHING (there is no source text in the statement), so `C19_full` is false for EVERY implementation of
--- `error_location`, however correct (a caret run cannot have two different lengths): `C19_full_false` is
--- a refutation of an ill-posed statement, not of the property's caret clause.  It also speaks about the
--- one-piece `errorLocation`, which is no longer the live variant (`ErrLex.splitValues = true`).  The caret
--- clause stated over a source-text model is `C19_review_full_caret` below (after `C19_caret_uniform`),
--- and it is PROVED for the current code under the lexer hypothesis `SrcChain`.
+/-! ### the full statement -/
+
+/-- a token list is a viable prefix of the grammar: some sentence starts with it -/
+def ViablePrefix (T : Tables) (p : List Nat) : Prop := ∃ rest, C05.Sentence T (p ++ rest)
+
+/-- **Full statement, clause 1 (location)**, over a source-text model: for every text `src`, every token
+list the lexer semantics allows for it (`SrcChain`) and every bad token `b` in it, the message is the
+header, ≤ 2 context lines, the `>` line on which `b` starts and `c+1` dashes followed by `n` carets, where
+`n` is DETERMINED BY THE SOURCE: the length of the first line of `b`'s text (the whole token when it has no
+newline); the `n` characters under the carets are `src[index : index+n]`; every token that starts on that
+line is shown at its own offset with (the first line of) its source text.  At end of input one caret
+stands one column past the shown last line, which ends where the last token (part) ends. -/
+def C19_full_caret : Prop :=
+  (∀ (src : List Char) (toks : List Tok) (b : Tok), SrcChain src 0 toks → b ∈ toks →
+    ∃ (ctx : List (List Char)) (shown : List Char) (shift c n : Nat),
+      errorLocationV true toks (some b) = hdrUnknown :: (ctx ++ ['>' :: shown,
+          List.replicate (c + 1) '-' ++ List.replicate n '^']) ∧ ctx.length ≤ 2 ∧
+      n = ((splitLines b.value).headD []).length ∧ ('\n' ∉ b.value → n = b.value.length) ∧
+      c + shift = b.index ∧ (shown.drop c).take n = (src.drop b.index).take n ∧
+      (∀ t ∈ toks, t.lineno = b.lineno → shift ≤ t.index ∧
+        (shown.drop (t.index - shift)).take (headPart t).value.length =
+          (src.drop t.index).take (headPart t).value.length)) ∧
+  (∀ (src : List Char) (toks : List Tok) (l : Tok), SrcChain src 0 toks → (virt toks).getLast? = some l →
+    ∃ (ctx : List (List Char)) (shown : List Char) (shift : Nat),
+      errorLocationV true toks none = hdrEof :: (ctx ++ ['>' :: shown,
+          List.replicate (shown.length + 1) '-' ++ ['^']]) ∧
+      ctx.length ≤ 2 ∧ shift + shown.length = l.index + l.value.length)
+
+/-- **Full statement, clause 2 (which token), GRAMMAR level**: the reported bad token is the first one the
+grammar cannot accept — the tokens before it start some sentence, the tokens up to and including it do not.
+NOT proved; false on the pinned tree where an LALR conflict is resolved as shift (KF-C19-3). -/
+def C19_full_bad_token (T : Tables) : Prop :=
+  ∀ (toks : List Nat) (fuel k s : Nat) (log : List Nat), (∀ x ∈ toks, x ≠ 0) →
+    parse T .drain false toks fuel = .none_ (some ⟨some k, s⟩) log →
+      ViablePrefix T (toks.take k) ∧ ¬ ViablePrefix T (toks.take (k + 1))
+
+/-- clause 2 at PARSER level (this is what `C19_partial` proves): the error stack is a valid automaton path
+whose frontier is exactly `toks[:k]`, in the reported state, without an action on `toks[k]`; and every
+token list with the same first `k+1` tokens gets the same verdict (or runs out of fuel). -/
+def C19_parser_bad_token (T : Tables) : Prop :=
+  ∀ (pre rest rest' : List Nat) (fuel fuel' k s : Nat) (log : List Nat),
+    (∀ x ∈ pre ++ rest, x ≠ 0) → (∀ x ∈ pre ++ rest', x ≠ 0) → k < pre.length →
+    parse T .drain false (pre ++ rest) fuel = .none_ (some ⟨some k, s⟩) log →
+      ErrAt T (pre ++ rest) ⟨some k, s⟩ ∧
+      (parse T .drain false (pre ++ rest') fuel' = .none_ (some ⟨some k, s⟩) log ∨
+       parse T .drain false (pre ++ rest') fuel' = .fuel)
+
+/-- **Full statement, clause 3 (suggestions), GRAMMAR level**: every suggestion printed for the stored
+`expected_tokens` is the display value of a token type `ty` such that the tokens before the bad one
+followed by `ty` start some sentence.  NOT proved (needs completability of automaton paths). -/
+def C19_full_suggestion (T : Tables) (nT : Nat) : Prop :=
+  ∀ (valid : List Nat → Bool) (nm : Names) (attr : Nat → Option (List Char)) (types : List Nat)
+    (badIdx : Option Nat), (∀ x ∈ types, x ≠ 0) →
+    ∀ s ∈ makeSuggestion valid nm attr types badIdx (keptExpected T nT types),
+      ∃ ty, (s, ty) ∈ buildExpected nm attr (sortIds (keptExpected T nT types)) [] ∧
+        ∀ fuel e log, parse T .drain false types fuel = .none_ (some e) log →
+          ViablePrefix T ((match e.bad with | some k => types.take k | none => types) ++ [ty])
+
+/-- clause 3 at PARSER level (proved): … the automaton has a valid path spelling the tokens before the bad
+one followed by `ty` (or `ty` is `$end` on the accepting state) -/
+def C19_parser_suggestion (T : Tables) (nT : Nat) : Prop :=
+  ∀ (valid : List Nat → Bool) (nm : Names) (attr : Nat → Option (List Char)) (types : List Nat)
+    (badIdx : Option Nat), (∀ x ∈ types, x ≠ 0) →
+    ∀ s ∈ makeSuggestion valid nm attr types badIdx (keptExpected T nT types),
+      ∃ ty, (s, ty) ∈ buildExpected nm attr (sortIds (keptExpected T nT types)) [] ∧
+        ∀ fuel e log, parse T .drain false types fuel = .none_ (some e) log →
+          (∃ st' s', Path T ((s', .leaf ty) :: st') ∧
+            yieldStack ((s', .leaf ty) :: st') =
+              (match e.bad with | some k => types.take k | none => types) ++ [ty]) ∨ ty = 0
+
+/-- **the full statement of C19** -/
+def C19_full (T : Tables) (nT : Nat) : Prop :=
+  C19_full_caret ∧ C19_full_bad_token T ∧ C19_full_suggestion T nT
+
+/-! ### T19.1 for the one-piece variant (history: the code before repo 2c1674c; the live variant is reduced
+to it by `errorLocationV_true_eq` over virtual tokens) -/
 
 /-- **T19.1** caret arithmetic, any number of lines, any layout satisfying the lexer invariants:
 the message is the header, at most two context lines, the `>`-prefixed line of the bad token and
@@ -281,8 +352,8 @@ theorem C19_review_caret_uniform_line (src : List Char) (toks : List Tok) (b : T
     show ((splitLines b.value).headD []).length = _
     rw [splitLines_no_nl _ hnl]; rfl
 
-/-- [review] the caret clause of the property stated over a SOURCE-TEXT model (this, not `C19_full`, is the
-statement to judge): for every text `src` and every token list the uniform lexer semantics allows for it,
+/-- [review] the caret clause of the property stated over a SOURCE-TEXT model (now part of `C19_full_caret`,
+which adds the line-display and end-of-input conjuncts; kept under the reviewer's name): for every text `src` and every token list the uniform lexer semantics allows for it,
 and every bad token in it, the last line of the message is `c+1` dashes and `n` carets, `n` = length of the
 first line of the token's text (= the whole token when it has no newline), and the `n` characters of the shown
 line under the carets are the source characters `src[index : index+n]`. -/
@@ -327,6 +398,15 @@ example : ∃ (ctx : List (List Char)) (shown : List Char) (shift : Nat),  -- [r
           List.replicate (shown.length + 1) '-' ++ ['^']]) ∧
       ctx.length ≤ 2 ∧ shift + shown.length = 19 + 4 :=
   C19_eof_caret_uniform rvSrc2 rvToks2 ⟨2, "from".toList, 3, 19⟩ C19_review_srcChain_example2 (by decide)
+
+/-- **clause 1 of the full statement holds** (lexer semantics = hypothesis `SrcChain`) -/
+theorem C19_full_caret_holds : C19_full_caret := by
+  refine ⟨?_, ?_⟩
+  · intro src toks b h hb
+    obtain ⟨ctx, shown, shift, c, h1, h2, h3, h4, h5, h6⟩ := C19_review_caret_uniform_line src toks b h hb
+    exact ⟨ctx, shown, shift, c, _, h1, h2, rfl, h6, h3, h4, h5⟩
+  · intro src toks l h hl
+    exact C19_eof_caret_uniform src toks l h hl
 
 /-! ### T19.3 suggestions -/
 
@@ -669,14 +749,44 @@ example : ErrLex.idTok ∈ keptExpected Tables_mindsdb.tables Tables_mindsdb.nTe
     (Tables_mindsdb.sample.head! :: Tables_mindsdb.sample) := by decide +kernel
 example : keptExpected Tables_mindsdb.tables Tables_mindsdb.nTerms [168, 74, 63, 74, 204] ≠ [] := by decide +kernel
 
+/-! ### what is proved of the full statement -/
+
+theorem C19_parser_bad_token_holds (T : Tables) (hv : T.valid = true) : C19_parser_bad_token T := by
+  intro pre rest rest' fuel fuel' k s log h0 h0' hk h
+  exact ⟨C19_bad_token_prefix T hv _ h0 fuel _ log h,
+    C19_bad_token_deterministic T hv pre rest rest' h0 h0' fuel fuel' k s log hk h⟩
+
+theorem C19_parser_suggestion_holds (T : Tables) (hv : T.valid = true) (nT : Nat) :
+    C19_parser_suggestion T nT := by
+  intro valid nm attr types badIdx h0 s hs
+  exact C19_review_suggestion_extends T hv nT valid nm attr types h0 badIdx s hs
+
+/-- **C19, the part that is proved**: clause 1 of `C19_full` in full; clauses 2 and 3 with "the grammar
+can continue" replaced by "the LALR automaton has a valid path" (the parser's own notion of acceptability).
+The gap to `C19_full` is grammar-level completability / completeness of the conflict-resolved tables:
+search only (Earley oracle), and clause 2 is false there today (KF-C19-3). -/
+theorem C19_partial (T : Tables) (hv : T.valid = true) (nT : Nat) :
+    C19_full_caret ∧ C19_parser_bad_token T ∧ C19_parser_suggestion T nT :=
+  ⟨C19_full_caret_holds, C19_parser_bad_token_holds T hv, C19_parser_suggestion_holds T hv nT⟩
+
+theorem C19_partial_mindsdb :
+    C19_full_caret ∧ C19_parser_bad_token Tables_mindsdb.tables ∧
+      C19_parser_suggestion Tables_mindsdb.tables Tables_mindsdb.nTerms :=
+  C19_partial _ Tables_mindsdb.valid _
+
+/-- the one direction between the two levels that does hold (by C05): a continuation the PARSER accepts is
+a sentence, so a prefix that is not viable in the grammar is never accepted; the converse (every sentence
+is accepted) is what conflict resolution breaks. -/
+theorem C19_accepted_is_viable (T : Tables) (hv : T.valid = true) (p rest : List Nat) (fuel : Nat)
+    (t : PT) (log : List Nat) (h0 : ∀ x ∈ p ++ rest, x ≠ 0)
+    (h : parse T .drain false (p ++ rest) fuel = .accept t log) : ViablePrefix T p :=
+  ⟨rest, C05.C05_sentence T hv .drain false _ fuel t log h0 h⟩
+
 /-- **Φ19 as a kernel-evaluated obligation on the generated mindsdb tables**: over all states that can
 be an error state (no default reduction, T19.2a) the kernel counts the shift keys and the reduce
-look-ahead keys of the action rows (16 chunk evaluations) and finds exactly the totals the
-translator computed from the live `lr_action` / `defaulted_states` (on the pinned tree 1266 states,
-35269 shift keys, 82467 reduce look-ahead keys).
-[review] the figures in this comment are stale: the generated `Gen/Keys_mindsdb.lean` of this tree has
-1268 / 35394 / 82606.  The theorem is a translation cross-check of the tables (Lean recount = Python
-count), it states nothing about suggestions. -/
+look-ahead keys of the action rows (chunk evaluations `Gen/K_mindsdb_*`) and finds exactly the totals the
+translator computed from the live `lr_action` / `defaulted_states`.  This is a translation cross-check of
+the tables (Lean recount = Python count); it states nothing about suggestions by itself. -/
 theorem C19_key_totals_mindsdb :
     unpackTotals (Trie.sumIdx (Row.keyCount Tables_mindsdb.nTerms) Tables_mindsdb.tables.rows) =
       (Tables_mindsdb.nErrStates, Tables_mindsdb.nShiftKeys, Tables_mindsdb.nRedKeys) :=
@@ -693,48 +803,42 @@ example : ErrLex.ignoreChars = " \t\r" := by decide
 example : ErrLex.attrs.length = Tables_mindsdb.nTerms := by decide +kernel
 example : ErrLex.attrs.getD ErrLex.idTok (some "") = none := by decide +kernel
 
-/-! ### witnesses: the full statement fails, and what breaks outside the hypotheses -/
+/-! ### regression theorems about the OLD one-piece variant, and necessity of the hypotheses
+(none of these describes the live code any more: the defects were repaired by repo 5f4cdd1, 2c1674c, bd184d7) -/
 
 def tk (ty : Nat) (v : String) (ln ix : Nat) : Tok := ⟨ty, v.toList, ln, ix⟩
 def msg (toks : List Tok) (bad : Option Tok) : List String := (errorLocation toks bad).map String.ofList
 
-/-- model-level witness that `hsrc` of `C19_caret_source` is needed (it described the code until repo
-5f4cdd1, when the lexer still stripped the `@` of `select @aa @bb`): 2 carets for a 3-character
-source token; the layout hypotheses hold, so this is what `value ≠ source` costs. -/
+/-- REGRESSION (old lexer, before 5f4cdd1, which stripped the `@` of `select @aa @bb`): when a value is
+not its source text the carets are shorter than the source token — why `SrcChain` demands value = slice. -/
 def wShort : List Tok := [tk 0 "select" 1 0, tk 1 "aa" 1 7, tk 1 "bb" 1 11]
-theorem C19_witness_short_caret :
+theorem C19_regress_rewritten_value_short_caret :
     layoutOK wShort = true ∧
     msg wShort (some (tk 1 "bb" 1 11)) = ["Syntax error, unknown input:", ">select aa  bb", "------------^^"] := by
   decide
-theorem C19_full_false : ¬ C19_full := by
-  intro h
-  obtain ⟨pre, c, hc⟩ := h wShort (tk 1 "bb" 1 11) 3 (by decide)
-  have h1 : (errorLocation wShort (some (tk 1 "bb" 1 11))).getLast? =
-      some "------------^^".toList := by decide
-  rw [hc] at h1
-  simp at h1
-  have := congrArg (fun l => l.count '^') h1
-  simp [List.count_append, List.count_replicate] at this
 
-/-- `select 'a\nb' from from`: the newline inside the string token does not advance `lineno`; the
-"line" shown contains a raw newline, so the caret line no longer lines up with the last printed line
-(layout hypotheses hold; the missing hypothesis is "no newline inside a token value"). -/
+/-- REGRESSION (one-piece `errorLocation` + per-rule `lineno`, before 2c1674c / bd184d7) on
+`select 'a\nb' from from`: the shown "line" contains a raw newline and the caret line does not line up
+with the last printed line.  The live variant on the same text: see the example below. -/
 def wNl : List Tok := [tk 0 "select" 1 0, tk 2 "'a\nb'" 1 7, tk 3 "from" 1 13, tk 3 "from" 1 18]
-theorem C19_witness_newline_in_token :
+theorem C19_regress_onepiece_newline_in_token :
     layoutOK wNl = true ∧
     msg wNl (some (tk 3 "from" 1 18)) =
       ["Syntax error, unknown input:", ">select 'a\nb' from from", "-------------------^^^^"] := by
   decide
 
-/-- outside `layoutOK` (a value longer than the gap to the next token — not producible by the
-lexer, whose actions only shorten) the earlier text is truncated: the shown line lies -/
-theorem C19_witness_truncation :
+/-- necessity of `layoutOK` for the one-piece theorems (a value longer than the gap to the next token, not
+producible by the lexer): the earlier text is truncated -/
+theorem C19_outside_layout_truncation :
     layoutOK [tk 0 "abcdef" 1 0, tk 1 "x" 1 3] = false ∧
     msg [tk 0 "abcdef" 1 0, tk 1 "x" 1 3] (some (tk 1 "x" 1 3)) =
       ["Syntax error, unknown input:", ">abcx", "----^"] := by
   decide
 
-/-- the "replace" attempt replaces the token BEFORE the bad one: with `valid` = "is `[1, 9, 3]`"
+/-! ### witnesses about the LIVE code -/
+
+/-- (model level, artificial `valid`) the "replace" attempt of the live `make_suggestion` replaces the token
+BEFORE the bad one — `tokens[:error_index - 1] + [token] + tokens[error_index:]`: with `valid` = "is `[1, 9, 3]`"
 the value for type 9 is suggested at bad index 2 of `[1, 2, 3]` although neither inserting it before
 token 2 nor substituting it for token 2 gives that list. -/
 def wNames : Names := ⟨100, 101, 102, 103, 104⟩
@@ -772,7 +876,7 @@ example : (errorLocationV true
       (some (tk 3 "null" 2 21))).map String.ofList =
     ["Syntax error, unknown input:", ">select a IS", "> NOT null null", "-----------^^^^"] := by decide
 
-/-! ### non-vacuity -/
+/-! ### non-vacuity of the one-piece theorems (old variant) -/
 example : layoutOK [tk 0 "select" 1 2, tk 1 "a" 2 13, tk 1 "b" 2 15, tk 1 "c" 2 17] = true := by decide
 example : msg [tk 0 "select" 1 2, tk 1 "a" 2 13, tk 1 "b" 2 15, tk 1 "c" 2 17] (some (tk 1 "c" 2 17)) =
     ["Syntax error, unknown input:", ">  select", ">     a b c", "----------^"] := by decide
